@@ -24,14 +24,14 @@ W = [('R7', r'lockWord\(\)\.fetch_or\((\w+),\s*std::memory_order_(\w+)\)', r'A_F
      ('R17', r'event_\.wait\(kWriteBit\);', 'G_event_wait(self, kWriteBit);'),
      ('R17', r'event_\.tryNotify\(\);', 'G_event_tryNotify(self);'),
      ('R17', r'(?<![\w.>])(setWriteBit|waitForReaderDrain|readerRelease|unlock)\(\);', r'RW_\1(self);')]
-LC_SPIN = ' __CPROVER_assigns(val, spin, *self, g_readers_other, g_trans_other, g_mine_count, g_bit_other, g_excl_other, g_bit_mine, g_excl_mine, g_hold_read_mine, g_viol, g_bad_order, g_wakes, g_need_wake, g_last_mo) '
+LC_SPIN = ' __CPROVER_assigns(val, spin, *self, g_viol, g_bad_order, g_wakes, g_need_wake, g_last_mo) '
 
 
 def opt(subs):
     return [s + ('opt',) if len(s) == 3 else s for s in subs]
 
 
-def build(ctx):
+def emit_all(ctx):
     r = ctx.repo
     consts = r.text(F)
     m1 = re.search(r'static\s+constexpr\s+int\s+kTryLockDrainSpins\s*=\s*(\d+)\s*;', consts)
@@ -46,6 +46,7 @@ def build(ctx):
     em('RW_setWriteBit', r'inline\s+void\s+RWLockImpl::setWriteBit\s*\(\s*\)',
        extra=[('LC', r'(for\s*\(int spin = 0; val & kWriteBit; \+\+spin\))\s*\{', r'\1' + LC_SPIN +
                '__CPROVER_loop_invariant(WORD_OK && EXCL_INV && !g_viol && !g_bad_order && !g_need_wake && g_mine_count == __CPROVER_loop_entry(g_mine_count) && g_hold_read_mine == __CPROVER_loop_entry(g_hold_read_mine) && (g_bit_mine == !(val & kWriteBit)) && spin >= 0 && spin <= kSpinBeforeYield) {', 1)])
+    em('RW_tryWriteBit', r'inline\s+bool\s+RWLockImpl::tryWriteBit\s*\(\s*\)')
     em('RW_waitForReaderDrain', r'inline\s+void\s+RWLockImpl::waitForReaderDrain\s*\(\s*\)')
     em('RW_lock', r'inline\s+void\s+RWLockImpl::lock\s*\(\s*\)')
     em('RW_try_lock', r'inline\s+bool\s+RWLockImpl::try_lock\s*\(\s*\)')
@@ -59,9 +60,14 @@ def build(ctx):
     em('RW_unlock_shared', r'inline\s+void\s+RWLockImpl::unlock_shared\s*\(\s*\)')
     em('RW_lock_upgrade', r'inline\s+void\s+RWLockImpl::lock_upgrade\s*\(\s*\)')
     em('RW_lock_downgrade', r'inline\s+void\s+RWLockImpl::lock_downgrade\s*\(\s*\)')
+    return d, m1
+
+
+def build(ctx):
+    d, m1 = emit_all(ctx)
     S = 'specs/c22_rwlock.c'
     units = []
-    for fn, rep, loops, unw in (('RW_readerRelease', [], False, None), ('RW_setWriteBit', [], True, None), ('RW_waitForReaderDrain', [], False, None),
+    for fn, rep, loops, unw in (('RW_readerRelease', [], False, None), ('RW_setWriteBit', [], True, None), ('RW_tryWriteBit', [], False, None), ('RW_waitForReaderDrain', [], False, None),
                                 ('RW_lock', ['RW_setWriteBit', 'RW_waitForReaderDrain'], False, None), ('RW_try_lock', [], False, int(m1.group(1)) + 2),
                                 ('RW_unlock', [], False, None), ('RW_lock_shared', ['RW_readerRelease'], True, None), ('RW_try_lock_shared', ['RW_readerRelease'], False, None),
                                 ('RW_unlock_shared', ['RW_readerRelease'], False, None), ('RW_lock_upgrade', ['RW_setWriteBit', 'RW_waitForReaderDrain'], False, None),
